@@ -59,6 +59,12 @@ public:
     return *this;
   }
 
+  CommandSignature& combine(uint64_t n) {
+    // FIXME: Use a more appropriate hashing infrastructure.
+    value = llvm::hash_combine(value, n);
+    return *this;
+  }
+
   template <typename T>
   CommandSignature& combine(const std::vector<T>& list) {
     for (const auto& v: list) {
